@@ -56,7 +56,7 @@ class Reservoir(object):
 
     def add(self, val):
         self._total_count += 1
-        if self._total_count <= self._cap:
+        if len(self._data) < self._cap:
             self._data.append(val)
             return
 
